@@ -11,18 +11,19 @@ CONSTANTS MCSlots,      \* slots a duty can be for
           MCLean,       \* see Attester!NextWith
           MCMaxAlive    \* runs alive at the same time
 
-\* position of validator v in its committee and committee sizes: fixed tables (positions differ
-\* from array indices and committee indices, sizes differ per committee)
-PosTab(v) == (v * 3) % 5
-SizeTab(c) == 6 + c
+\* position of validator v in its committee and committee sizes: tables (positions differ from
+\* array indices and committee indices, sizes differ per committee) that change with the slot - a
+\* validator or a committee index met again in another duty comes with another position / size
+PosTab(s, v) == (v * 3 + s) % 5
+SizeTab(s, c) == 6 + c + (s % 3)
 
 \* validator lists of duties: ordered, distinct
 MCValSeqs == {vs \in UNION {[1..n -> MCVals] : n \in 1..MCMaxLen} : \A i, j \in DOMAIN vs : vs[i] = vs[j] => i = j}
 
 \* all assignments of the listed validators to committees
 MCDuties ==
-    {[slot |-> s, vals |-> vs, comm |-> cs, pos |-> [i \in DOMAIN vs |-> PosTab(vs[i])],
-      sizes |-> [i \in 1..Cardinality(MCComms) |-> <<i - 1, SizeTab(i - 1)>>]]
+    {[slot |-> s, vals |-> vs, comm |-> cs, pos |-> [i \in DOMAIN vs |-> PosTab(s, vs[i])],
+      sizes |-> [i \in 1..Cardinality(MCComms) |-> <<i - 1, SizeTab(s, i - 1)>>]]
         : s \in MCSlots, vs \in MCValSeqs, cs \in UNION {[1..n -> MCComms] : n \in 1..MCMaxLen}}
 
 Duties == {d \in MCDuties : /\ Len(d.comm) = Len(d.vals)
@@ -44,5 +45,5 @@ AliveBound == Cardinality(Alive) <= MCMaxAlive
 
 TypeOK ==
     /\ \A p \in attested : p[1] \in {Epoch(s) : s \in MCSlots}
-    /\ \A r \in RunIds : run[r].pc \in {"idle", "mark", "fetch", "validate", "accounts", "sign", "build", "submit", "ret", "done"}
+    /\ \A r \in RunIds : run[r].pc \in {"idle", "mark", "fetch", "validate", "accounts", "sign", "signing", "build", "submit", "submitting", "ret", "done"}
 =============================================================================
